@@ -59,6 +59,10 @@ def match_known(prop, clause, detail, data):
         if "detail_contains" in m and not all(
                 s in detail for s in _aslist(m["detail_contains"])):
             continue
+        if "detail_regex" in m:
+            import re
+            if not re.search(m["detail_regex"], detail):
+                continue
         if "data_contains" in m:
             blob = json.dumps(data, sort_keys=True, default=str)
             if not all(s in blob for s in _aslist(m["data_contains"])):
